@@ -29,15 +29,19 @@
 
 static int c11_lock(pthread_mutex_t* m);
 static int c11_unlock(pthread_mutex_t* m);
+static int c11_trylock(pthread_mutex_t* m);
+static inline int c11_real_trylock(pthread_mutex_t* m) { return pthread_mutex_trylock(m); }
 static inline int c11_real_lock(pthread_mutex_t* m) { return pthread_mutex_lock(m); }
 static inline int c11_real_unlock(pthread_mutex_t* m) { return pthread_mutex_unlock(m); }
 
 #define pthread_mutex_lock c11_lock
 #define pthread_mutex_unlock c11_unlock
+#define pthread_mutex_trylock c11_trylock
 #include <asmjit/core.h>
 #include <asmjit/core/jitallocator.cpp>
 #undef pthread_mutex_lock
 #undef pthread_mutex_unlock
+#undef pthread_mutex_trylock
 
 using namespace asmjit;
 
@@ -60,6 +64,13 @@ static thread_local uint64_t t_seq = 0;
 static int c11_lock(pthread_mutex_t* m) {
   int rc = c11_real_lock(m);
   if (g_impl) t_seq = g_seq++;
+  return rc;
+}
+
+// a successful trylock is an acquire as well (a Lock::lock() that spins with trylock before it blocks)
+static int c11_trylock(pthread_mutex_t* m) {
+  int rc = c11_real_trylock(m);
+  if (rc == 0 && g_impl) t_seq = g_seq++;
   return rc;
 }
 
@@ -157,7 +168,9 @@ static void worker(JitAllocator* a, uint64_t seed, int tid, int nthreads, uint32
     cap.valid = false;
     Record r; r.tid = tid; r.aseq = 0;
     if (k < 45 || live.empty()) {
-      static const uint32_t sizes[] = { 1, 64, 65, 200, 640, 960, 2432, 4032, 4096, 9000, 30000, 70000, 131008 };
+      // sizes at the case splits of the model: pool selection (multiples of 64 / 128 / 256 and off-by-one), a whole block, more than a block
+      static const uint32_t sizes[] = { 1, 63, 64, 65, 127, 128, 129, 192, 200, 255, 256, 257, 512, 640, 768, 960, 2432, 4032, 4096, 9000, 30000,
+                                        65472, 65536, 70000, 131008, 131072, 200000 };
       size_t size = rng.below(4) ? sizes[rng.below(sizeof(sizes) / sizeof(sizes[0]))] : 1 + rng.below(6000);
       Live l;
       Error e = a->alloc(Out(l.span), size);
@@ -184,7 +197,10 @@ static void worker(JitAllocator* a, uint64_t seed, int tid, int nthreads, uint32
       else r.ans = fmt("R %s %" PRId64 " deleted", err_name(e, tmp), l.blk);
     } else if (k < 82) {
       size_t i = rng.below(uint32_t(live.size()));
-      size_t ns = 1 + rng.below(uint32_t(live[i].span.size()));
+      // the three cases of C09_shrink_frame: fewer granules (m < n), the same number (m = n), more than the span has (refused)
+      uint32_t which = rng.below(10);
+      size_t cur = live[i].span.size();
+      size_t ns = which == 0 ? cur : which == 1 ? cur + 1 + rng.below(200) : which == 2 ? (cur > 64 ? cur - rng.below(64) : cur) : 1 + rng.below(uint32_t(cur));
       Error e = a->shrink(live[i].span, ns);
       if (!cap.valid) continue;
       r.cmd = fmt("S %zu", ns); r.aseq = live[i].aseq;
